@@ -299,6 +299,10 @@ def run(chk):
     d3c_stated_sex(chk, prog)
     C05.d2(chk, prog)            # expect_flat_log2 table (shared with C05-D2)
     d4(chk, prog)
+    chk.clause("CLI", "the `call --center` and `sex` command lines: estimator, --drop-low-coverage, -y and the PAR genome reach center_all / do_sex as given")
+    from .. import cliglue
+    cliglue.check_call(chk, prog)
+    cliglue.check_sex(chk, prog)
 
 
 _C = "cnvlib/cnary.py"
